@@ -9,8 +9,9 @@ CONSTANTS Mode,         \* "single": one-rule sets; "pairs": two-rule sets
           MaxUse,       \* maximal number of arguments of the use
           Emitting      \* print one vector per case
 
-Lits == {"lit"}
-A == MkSym("a")   B == MkSym("b")   L == MkSym("lit")   Z == MkSym("z")
+\* two literal identifiers: patterns use lit; uses may write the other keyword kw where a rule has lit (it must not match)
+Lits == {"lit", "kw"}
+A == MkSym("a")   B == MkSym("b")   L == MkSym("lit")   Z == MkSym("z")   KW == MkSym("kw")
 PatAtoms == {A, B, L, MkInt(1), Underscore, True}
 SubAtoms == {A, B, L, MkInt(1)}
 Vlit(s) == [t |-> "vlit", xs |-> s]
@@ -59,9 +60,9 @@ Templates(ps) ==
       MkList(<<K>> \o FreeSyms \o Rep(ms) \o Reverse(OneSyms) \o OneSyms),         \* constants, reversed, duplicated
       MkList(<<Vlit(OneSyms \o <<K>>)>> \o RepList(ms) \o <<MkList(OneSyms)>>)}   \* nested: vector, list sub-template under the ellipsis
 
-UseAtoms == {MkInt(1), MkInt(2), L, Z, True}
+UseAtoms == {MkInt(1), MkInt(2), L, Z, KW, True}
 UseElems == UseAtoms \cup {MkList(<<MkInt(1)>>), MkList(<<MkInt(1), MkInt(2)>>), MkList(<<L, MkInt(1)>>), MkList(<<>>), Vlit(<<MkInt(1), L>>),
-                          MkList(<<MkList(<<MkInt(2)>>), L>>)}
+                          MkList(<<MkList(<<MkInt(2)>>), L>>), MkList(<<KW, MkInt(1)>>)}
 Uses == UNION {[1..n -> UseElems] : n \in 0..MaxUse}
 
 Rule(ps, t) == [pat |-> ps, tmpl |-> t]
